@@ -157,7 +157,7 @@ def branch_templates(ctx, rule):
             # the helper interpreted on the same (url class x protocol spelling) cells, extra spellings of each class included
             from ..microeval import Raised
             out = []
-            extra = {"no-protocol": ["lemonde.fr/login?next=https://abo.lemonde.fr/", "a.com"], "protocol-relative": ["//a.com", "///a.com/x"], "has-protocol": ["HTTP://a.com/x", "https://a.com/?u=b.org", "git://a.com/x", "P://a.com/x", "feed://www.a.com/rss", "://a.com/x"]}
+            extra = {"no-protocol": ["lemonde.fr/login?next=https://abo.lemonde.fr/", "a.com", "a.com:8080/x", "localhost:3000/x", "user:pw@a.com/x", "mailto:x@a.com"], "protocol-relative": ["//a.com", "///a.com/x"], "has-protocol": ["HTTP://a.com/x", "https://a.com/?u=b.org", "git://a.com/x", "P://a.com/x", "feed://www.a.com/rss", "://a.com/x"]}
             for cname, m, r, rep in CLASSES:
                 for u in [rep] + extra[cname]:
                     for proto in (("p", "p:", "p://") if name != "strip_protocol" else (None,)):
